@@ -2,6 +2,13 @@
 use vaporetto_rules::{string_filters::KyteaFullwidthFilter, StringFilter};
 
 fn check_char(c: char) -> Option<String> {
+    match std::panic::catch_unwind(move || check_char_inner(c)) {
+        Ok(r) => r,
+        Err(_) => Some(format!("the normaliser panics on U+{:04X}", c as u32)),
+    }
+}
+
+fn check_char_inner(c: char) -> Option<String> {
     let f = KyteaFullwidthFilter;
     let s = c.to_string();
     let r: String = f.filter(s.as_str());
@@ -34,7 +41,10 @@ pub fn search() -> Option<String> {
     let f = KyteaFullwidthFilter;
     let samples = ["a1!漢ｱ", "Vaporetto-1.0 & co.", "\"'+:=@*&!", "ｱｲｳ｡｢｣､･", "─–-~", "0123456789", "zZ"];
     for s in samples {
-        let whole: String = f.filter(s);
+        let whole: String = match std::panic::catch_unwind(|| { let w: String = KyteaFullwidthFilter.filter(s); w }) {
+            Ok(w) => w,
+            Err(_) => return Some(desc(&format!("s:{}", s), "the normaliser panics on this string")),
+        };
         let parts: String = s.chars().map(|c| { let t: String = f.filter(c.to_string().as_str()); t }).collect();
         if whole != parts || whole.chars().count() != s.chars().count() {
             return Some(desc(&format!("s:{}", s), "string result is not the character-wise image"));
